@@ -1,25 +1,27 @@
 ---- MODULE CredsMatrixTrace ----
-(* Stage (e) for C58: validates every (case, outcome) row recorded from the real client/server.
-   Row: {"ev":"case","t","via","d","b","c","dial":"ok"|"fail","code":n,"streams":n,
-         "dsent","bsent","csent": string, "dgot","bgot","cgot": sequence of strings (one per stream
-         in which metadata of that credential arrived)} *)
+(* Stage (e) for C58: validates every (history, outcomes) row recorded from the real client/server.
+   Row: {"ev":"case","t","via","d","b","calls":[kind,...],"dial":"ok"|"fail","dsent","bsent",
+         "rpcs":[{"code":n,"streams":n,"csent":string,"dgot","bgot","cgot": sequence of strings (one per
+                  stream of that RPC in which metadata of that credential arrived)}, ...]}
+   rpcs[i] is the i-th RPC made on the one ClientConn; every clause is judged per RPC. *)
 EXTENDS CredsMatrix, TraceIO
 VARIABLES l
 vars == <<l>>
 Init == l = 1 /\ InitRegs
 Ev == Trace[l]
 Cls(sent, got) == IF got = <<>> THEN "none" ELSE IF got = <<sent>> THEN "same" ELSE "diff"
-CaseOf(e) == [t |-> e.t, via |-> e.via, d |-> e.d, b |-> e.b, c |-> e.c]
-Obs(e) == [dial |-> e.dial, code |-> e.code, streams |-> e.streams,
-           vd |-> Cls(e.dsent, e.dgot), vb |-> Cls(e.bsent, e.bgot), vc |-> Cls(e.csent, e.cgot)]
+HistOf(e) == [t |-> e.t, via |-> e.via, d |-> e.d, b |-> e.b, calls |-> e.calls]
+Obs(e, i) == LET r == e.rpcs[i] IN
+             [dial |-> e.dial, code |-> r.code, streams |-> r.streams,
+              vd |-> Cls(e.dsent, r.dgot), vb |-> Cls(e.bsent, r.bgot), vc |-> Cls(r.csent, r.cgot)]
 Check(e) ==
   CASE e.ev = "case" ->
-         LET x == CaseOf(e)  o == Obs(e) IN
-         /\ Mark(x \notin Cases, "C58_BadCase", l)
-         /\ Mark(~NoLeak(x, o), "C58_NoLeak", l)
-         /\ Mark(~MustFail(x, o), "C58_MustFail", l)
-         /\ Mark(~Delivered(x, o), "C58_Delivered", l)
-         /\ Drift(o # Ref(x), "C58_OutcomeDiffersFromReference", l)
+         LET x == HistOf(e)  n == Len(e.calls) IN
+         /\ Mark(x \notin HCases \/ Len(e.rpcs) # n, "C58_BadCase", l)
+         /\ Mark(\E i \in 1..n : ~NoLeak(At(x, i), Obs(e, i)), "C58_NoLeak", l)
+         /\ Mark(\E i \in 1..n : ~MustFail(At(x, i), Obs(e, i)), "C58_MustFail", l)
+         /\ Mark(\E i \in 1..n : ~Delivered(At(x, i), Obs(e, i)), "C58_Delivered", l)
+         /\ Drift(\E i \in 1..n : Obs(e, i) # Ref(At(x, i)), "C58_OutcomeDiffersFromReference", l)
     [] e.ev = "panic" -> Mark(TRUE, "NoPanic", l)
     [] OTHER -> e.ev = "reset"
 Next == l <= TLen /\ l' = l + 1 /\ Consumed(l) /\ Check(Ev)
